@@ -934,9 +934,9 @@ class SimpleShape(DefinedShape):
             return False
         if areaA > 0:
             return True
-        # If simple shape is not a square
-        # may happens error here
-        return True
+        # Both are unbounded: other is inside self iff the bounded
+        # complement of self is inside the bounded complement of other
+        return jordanb in ~other
 
 
 class ConnectedShape(DefinedShape):
